@@ -560,6 +560,16 @@ class PhysicalAccessor(Accessor[T_co]):
         )
 
 
+def _check_deletable(elements: cabc.Iterable[etree._Element]) -> None:
+    """Refuse to delete roots of fragment files before anything changes."""
+    for elm in elements:
+        if elm.getparent() is None:
+            raise NotImplementedError(
+                "Deleting the root element of a fragment file"
+                " is not supported yet"
+            )
+
+
 class DirectProxyAccessor(WritableAccessor[T_co], PhysicalAccessor[T_co]):
     """Creates proxy objects on the fly."""
 
@@ -686,9 +696,10 @@ class DirectProxyAccessor(WritableAccessor[T_co], PhysicalAccessor[T_co]):
                 if not isinstance(v, str | NewObject)
             }
             list = self.__get__(obj)
-            for v in list:
-                if id(v._element) not in keep:
-                    self.delete(list, v)
+            dropped = [v for v in list if id(v._element) not in keep]
+            _check_deletable(v._element for v in dropped)
+            for v in dropped:
+                self.delete(list, v)
             for i, v in enumerate(new_values):
                 list = self.__get__(obj)
                 if isinstance(v, str):
@@ -724,6 +735,7 @@ class DirectProxyAccessor(WritableAccessor[T_co], PhysicalAccessor[T_co]):
     def _delete(
         self, model: capellambse.MelodyModel, elements: list[etree._Element]
     ) -> None:
+        _check_deletable(elements)
         all_elements = (
             list(
                 itertools.chain.from_iterable(
@@ -1950,6 +1962,7 @@ class RoleTagAccessor(WritableAccessor, PhysicalAccessor):
     ) -> None:
         assert obj._model is elmlist._model
         model = obj._model
+        _check_deletable([obj._element])
         all_elements = [
             *list(model._loader.iterdescendants_xt(obj._element)),
             obj._element,
